@@ -11,14 +11,19 @@ for sid in ids:
     meta = json.load(open(out + "/meta.json"))
     scr = tempfile.mkdtemp(prefix="polyscan_seed.")
     subprocess.run("cd /repo && git ls-files -z | tar --null -T - -cf - | tar -xf - -C %s" % scr, shell=True)
-    ap = subprocess.run(["patch", "-p1", "-s", "-i", out + "/patch.diff"], cwd=scr, stdout=subprocess.PIPE, stderr=subprocess.STDOUT, text=True)
+    ap = subprocess.run(["patch", "-p1", "-s", "--dry-run", "-i", out + "/patch.diff"], cwd=scr, stdout=subprocess.PIPE, stderr=subprocess.STDOUT, text=True)
+    used = "patch.diff"
+    ported = sorted(f_ for f_ in os.listdir(out) if f_.startswith("ported") and f_.endswith(".diff"))
+    if ap.returncode != 0 and ported:
+        used = ported[-1]
+    ap = subprocess.run(["patch", "-p1", "-s", "-i", out + "/" + used], cwd=scr, stdout=subprocess.PIPE, stderr=subprocess.STDOUT, text=True)
     env = dict(os.environ, POLYSCAN_REPO=scr)
     c = subprocess.run(["/verif/check", ",".join(props)], cwd="/verif", env=env, stdout=subprocess.PIPE, stderr=subprocess.STDOUT, text=True)
     shutil.rmtree(scr, ignore_errors=True)
     caught = sorted(set(re.findall(r"^VIOLATION property=(\w+)", c.stdout, re.M)))
     rules = sorted(set(re.findall(r"^  rule=(\S+) instance=(.*)$", c.stdout, re.M)))
     prop = meta.get("property") or sid.split("_")[0]
-    meta["checks"] = {"patch_applies_to_current_repo": ap.returncode == 0, "exit_code": c.returncode, "caught_by": caught,
+    meta["checks"] = {"patch_used": used, "patch_applies_to_current_repo": ap.returncode == 0, "exit_code": c.returncode, "caught_by": caught,
                       "rules": ["%s[%s]" % r_ for r_ in rules][:8], "target_property_caught": prop in caught}
     json.dump(meta, open(out + "/meta.json", "w"), indent=1)
     print(sid, "applies=%s" % (ap.returncode == 0), "caught_by=%s" % caught, "target=%s" % (prop in caught), [r_[0] for r_ in rules][:5], flush=True)
